@@ -78,6 +78,8 @@ type icModel struct {
 	// listed[id] = heights at which id appeared in a destination delivery set
 	listed   map[string][]uint64
 	timedOut map[string][]uint64
+	// hubDown: the remote BitXHub's record is frozen (requests to it begin as failed)
+	hubDown bool
 }
 
 func newICModel() *icModel {
@@ -203,7 +205,7 @@ func (in *icInst) build(desc string, h uint64) (pb.Transaction, icExpect) {
 		switch {
 		case idx != m.nextReq[p.name]+1:
 			e.verdict = "reject"
-		case p.blocked:
+		case p.blocked, p.hub && m.hubDown:
 			e.verdict, e.newSt = "beginfail", stBeginF
 		default:
 			e.verdict, e.newSt = "accept", stBegin
@@ -285,6 +287,9 @@ func (in *icInst) build(desc string, h uint64) (pb.Transaction, icExpect) {
 			e.isReq = true
 			if idx == m.nextReq[p.name]+1 {
 				e.verdict, e.newSt = "accept", stBegin
+				if p.hub && m.hubDown {
+					e.verdict, e.newSt = "beginfail", stBeginF
+				}
 			}
 			return tx, e
 		}
@@ -295,9 +300,10 @@ func (in *icInst) build(desc string, h uint64) (pb.Transaction, icExpect) {
 				e.verdict, e.newSt = "accept", stFailure
 			case rec.status == stBegin && f[3] == "br":
 				e.verdict, e.newSt = "accept", stRollback
-			case rec.status == stBeginF && f[3] == "bf":
-				e.verdict, e.newSt = "accept", stFailure
 			}
+			// a notice for a transaction that is not in BEGIN (begun as failed because the remote
+			// hub was unavailable) is no transition of the protocol: BEGIN_FAILURE only goes to
+			// FAILURE, by the failure receipt
 		}
 		return tx, e
 	case "xfer":
@@ -328,6 +334,18 @@ func (in *icInst) build(desc string, h uint64) (pb.Transaction, icExpect) {
 // executor and steps the model.
 func (in *icInst) applyBlock(spec string) {
 	w, m := in.w, in.m
+	if spec == "hubfz" || spec == "hubac" {
+		// governance on the remote hub's record (proposal + votes, two blocks): freeze / activate.
+		// Only used in explorations without running timeouts (the model does not step these blocks).
+		method := map[string]string{"hubfz": "FreezeAppchain", "hubac": "ActivateAppchain"}[spec]
+		res := w.Block(w.InvokeTx(fix.AdminKeys[1], constant.AppchainMgrContractAddr, method, pb.String(fix.HubR), pb.String("r")))
+		if res.Receipts[0].IsSuccess() {
+			w.Approve(fix.ProposalID(res.Receipts[0]))
+			m.hubDown = spec == "hubfz"
+		}
+		in.last = nil
+		return
+	}
 	h := w.R.L.GetChainMeta().Height + 1
 	st := &icStep{height: h, before: map[string]int{}}
 	for id, r := range m.tx {
@@ -662,6 +680,7 @@ func (m *icModel) clone() *icModel {
 		c := *v
 		n.tx[k] = &c
 	}
+	n.hubDown = m.hubDown
 	return n
 }
 
